@@ -15,6 +15,7 @@ import (
 	"go.uber.org/zap"
 	"go.uber.org/zap/exp/zapslog"
 	"go.uber.org/zap/zapcore"
+	"go.uber.org/zap/zaptest/observer"
 	"pgregory.net/rapid"
 )
 
@@ -290,7 +291,31 @@ func propC18(t *rapid.T) {
 	sink := &memSink{}
 	th := zapcore.Level(rapid.IntRange(-1, 3).Draw(t, "coreThreshold"))
 	al := zap.NewAtomicLevelAt(th)
-	core := zapcore.NewCore(zapcore.NewJSONEncoder(c18Cfg), sink, al)
+	var core zapcore.Core = zapcore.NewCore(zapcore.NewJSONEncoder(c18Cfg), sink, al)
+	// the handler may sit on top of any core: one that already carries context (possibly ending in an
+	// open namespace, under which everything the handler adds must nest), wrappers, a tee with an observer
+	coreWrap := rapid.SampledFrom([]string{"plain", "plain", "ctx", "ctx-ns", "lazy", "sampler", "hooked", "tee-observer", "increase"}).Draw(t, "coreWrap")
+	var obsLogs *observer.ObservedLogs
+	switch coreWrap {
+	case "ctx":
+		core = core.With([]zapcore.Field{zap.String("cx", "v")})
+	case "ctx-ns":
+		core = core.With([]zapcore.Field{zap.String("cx", "v"), zap.Namespace("cns")})
+	case "lazy":
+		core = zapcore.NewLazyWith(core, []zapcore.Field{zap.String("cx", "v")})
+	case "sampler":
+		core = zapcore.NewSamplerWithOptions(core, time.Hour, 1<<30, 0)
+	case "hooked":
+		core = zapcore.RegisterHooks(core, func(zapcore.Entry) error { return nil })
+	case "tee-observer":
+		var oc zapcore.Core
+		oc, obsLogs = observer.New(al)
+		core = zapcore.NewTee(oc, core)
+	case "increase":
+		if c, err := zapcore.NewIncreaseLevelCore(core, al); err == nil {
+			core = c
+		}
+	}
 	name := rapid.SampledFrom([]string{"", "svc"}).Draw(t, "handlerName")
 	var refBuf bytes.Buffer
 	refOpts := &slog.HandlerOptions{Level: slog.Level(-100), ReplaceAttr: func(groups []string, a slog.Attr) slog.Attr {
@@ -400,7 +425,21 @@ func propC18(t *rapid.T) {
 		}
 		want.kids = append(want.kids, xkv{"msg", xstr(uni(msg))})
 		steps := append(append([]c18Step{}, n.steps...), c18Step{attrs: actual})
-		want.kids = append(want.kids, c18Flatten(c18Build(steps))...)
+		fromHandler := c18Flatten(c18Build(steps))
+		switch coreWrap {
+		case "ctx", "lazy":
+			want.kids = append(want.kids, xkv{"cx", xstr("v")})
+			want.kids = append(want.kids, fromHandler...)
+		case "ctx-ns":
+			want.kids = append(want.kids, xkv{"cx", xstr("v")}, xkv{"cns", &xnode{kind: "obj", kids: fromHandler}})
+		default:
+			want.kids = append(want.kids, fromHandler...)
+		}
+		if obsLogs != nil {
+			if es := obsLogs.TakeAll(); len(es) != 1 || es[0].Message != msg || es[0].Level != zl {
+				t.Fatalf("handler #%d over a tee: the observer branch recorded %d entries for one handled record (%v)", n.id, len(es), es)
+			}
+		}
 		if e := c18Cmp("$", want, got); e != "" {
 			t.Fatalf("handler #%d output violates the slog.Handler contract: %s\n line: %s\n want: %s\n derivations: %s\n record attrs: %v", n.id, e, line, renderX(want), strings.Join(hist, " ; "), actual)
 		}
@@ -413,7 +452,7 @@ func propC18(t *rapid.T) {
 					meta = 3
 				}
 				gotAttrs := &xnode{kind: "obj", kids: got.kids[meta:]}
-				if a, b := keyShape(gotAttrs), keyShape(rn); a != b && !c18HasMultiKey(steps) && c18AllSolid(steps) {
+				if a, b := keyShape(gotAttrs), keyShape(rn); a != b && !c18HasMultiKey(steps) && c18AllSolid(steps) && (coreWrap == "plain" || coreWrap == "sampler" || coreWrap == "hooked" || coreWrap == "tee-observer" || coreWrap == "increase") {
 					t.Fatalf("handler #%d: key nesting differs from slog.JSONHandler for the same derivations and record:\n zap:  %s\n slog: %s\n derivations: %s\n record attrs: %v", n.id, a, b, strings.Join(hist, " ; "), actual)
 				}
 			}
